@@ -38,12 +38,12 @@ func init() {
 		Old: "\treturn m.MinifyMimetype(mimetype, w, r, params)\n}", New: "\t_ = params\n\treturn m.MinifyMimetype(mimetype, w, r, nil)\n}",
 		Rule: "R15.3", Construct: "M.Minify"})
 	mutant(&Mutant{Name: "c15-regexp-prepend", Property: "C15", File: "minify.go",
-		Old: "func (m *M) AddRegexp(pattern *regexp.Regexp, minifier Minifier) {\n\tm.mutex.Lock()\n\tm.pattern = append(m.pattern, patternMinifier{pattern, minifier})",
-		New: "func (m *M) AddRegexp(pattern *regexp.Regexp, minifier Minifier) {\n\tm.mutex.Lock()\n\tm.pattern = append([]patternMinifier{{pattern, minifier}}, m.pattern...)",
+		Old:  "func (m *M) AddRegexp(pattern *regexp.Regexp, minifier Minifier) {\n\tm.mutex.Lock()\n\tm.pattern = append(m.pattern, patternMinifier{pattern, minifier})",
+		New:  "func (m *M) AddRegexp(pattern *regexp.Regexp, minifier Minifier) {\n\tm.mutex.Lock()\n\tm.pattern = append([]patternMinifier{{pattern, minifier}}, m.pattern...)",
 		Rule: "R15.4", Construct: "M.AddRegexp/write M.pattern"})
 	mutant(&Mutant{Name: "c15-add-keeps-first", Property: "C15", File: "minify.go",
-		Old: "func (m *M) Add(mimetype string, minifier Minifier) {\n\tm.mutex.Lock()\n\tm.literal[mimetype] = minifier\n",
-		New: "func (m *M) Add(mimetype string, minifier Minifier) {\n\tm.mutex.Lock()\n\tif _, ok := m.literal[mimetype]; !ok {\n\t\tm.literal[mimetype] = minifier\n\t}\n",
+		Old:  "func (m *M) Add(mimetype string, minifier Minifier) {\n\tm.mutex.Lock()\n\tm.literal[mimetype] = minifier\n",
+		New:  "func (m *M) Add(mimetype string, minifier Minifier) {\n\tm.mutex.Lock()\n\tif _, ok := m.literal[mimetype]; !ok {\n\t\tm.literal[mimetype] = minifier\n\t}\n",
 		Rule: "R15.4", Construct: "M.Add/write M.literal"})
 }
 
